@@ -761,3 +761,111 @@ def controlled_special_case_rule(ctx, rid):
                        'a gate controlled on 0 or on a sum of products is handled as if it fired on all-ones', m.rel, fn.lineno)
     if n == 0:
         raise AnalysisError('no special-casing of ControlledGate / ControlledOperation left')
+
+
+def classical_basis_index_rule(ctx, rid):
+    """ClassicalBasisSimState keeps one entry per qubit *position*; a gate acts on the positions its qubits map to, so every
+    subscript of the basis list inside _act_on_fallback_ must be one of those mapped positions - never a gate-local index."""
+    repo = ctx.repo
+    ctx.rule(rid, 'position discipline of the classical simulator: inside ClassicalBasisSimState._act_on_fallback_ every read or write basis[k] uses a k that is an element '
+             'of the list of positions obtained through self.qubit_map (unpacked from it, iterated from it, or indexed out of it), never a gate-local index', floor=10, style='TNT')
+    cls = repo.cls('cirq.sim.classical_simulator.ClassicalBasisSimState')
+    fn = repo.method(cls.qual, '_act_on_fallback_')
+    lists, elems, basis_alias = set(), set(), set()
+
+    def is_basis(e):
+        return (isinstance(e, ast.Attribute) and e.attr == 'basis') or (isinstance(e, ast.Name) and e.id in basis_alias)
+
+    def is_list(e):
+        if isinstance(e, ast.Name):
+            return e.id in lists
+        if isinstance(e, ast.Subscript) and isinstance(e.slice, ast.Slice):
+            return is_list(e.value)
+        if isinstance(e, ast.Call) and call_name(e) in ('list', 'tuple', 'reversed', 'sorted') and e.args:
+            return is_list(e.args[0])
+        if isinstance(e, (ast.ListComp, ast.GeneratorExp)) and len(e.generators) == 1:
+            g = e.generators[0]
+            # [self.qubit_map[q] for q in qubits]
+            if isinstance(e.elt, ast.Subscript) and isinstance(e.elt.value, ast.Attribute) and e.elt.value.attr == 'qubit_map':
+                return True
+            if isinstance(e.elt, ast.Name) and isinstance(g.target, ast.Name) and e.elt.id == g.target.id and is_list(g.iter):
+                return True
+        return False
+
+    def is_elem(e, extra=()):
+        if isinstance(e, ast.Name):
+            return e.id in elems or e.id in extra
+        if isinstance(e, ast.Subscript) and not isinstance(e.slice, ast.Slice):
+            if isinstance(e.value, ast.Attribute) and e.value.attr == 'qubit_map':
+                return True
+            return is_list(e.value)
+        return False
+
+    def bind_iter(target, it):
+        if is_list(it):
+            if isinstance(target, ast.Name):
+                return {target.id}
+            return set()
+        if isinstance(it, ast.Call) and call_name(it) == 'enumerate' and it.args and is_list(it.args[0]) and isinstance(target, ast.Tuple) and len(target.elts) == 2 \
+                and isinstance(target.elts[1], ast.Name):
+            return {target.elts[1].id}
+        if isinstance(it, ast.Call) and call_name(it) == 'zip' and isinstance(target, ast.Tuple):
+            return {t.id for t, a in zip(target.elts, it.args) if isinstance(t, ast.Name) and is_list(a)}
+        return set()
+
+    changed = True
+    while changed:
+        changed = False
+        for n in ast.walk(fn):
+            new_l, new_e, new_b = set(), set(), set()
+            if isinstance(n, ast.Assign) and len(n.targets) == 1:
+                t = n.targets[0]
+                if isinstance(t, ast.Name):
+                    if is_list(n.value):
+                        new_l.add(t.id)
+                    if is_elem(n.value):
+                        new_e.add(t.id)
+                    if is_basis(n.value):
+                        new_b.add(t.id)
+                elif isinstance(t, (ast.Tuple, ast.List)) and is_list(n.value):
+                    new_e |= {e.id for e in t.elts if isinstance(e, ast.Name)}
+                    new_l |= {e.value.id for e in t.elts if isinstance(e, ast.Starred) and isinstance(e.value, ast.Name)}
+            elif isinstance(n, ast.For):
+                new_e |= bind_iter(n.target, n.iter)
+            if new_l - lists or new_e - elems or new_b - basis_alias:
+                lists |= new_l
+                elems |= new_e
+                basis_alias |= new_b
+                changed = True
+    # a name that is also assigned something else somewhere is not reliably a position
+    other = set()
+    for n in ast.walk(fn):
+        if isinstance(n, ast.Assign):
+            for t in n.targets:
+                for nm in ([t] if isinstance(t, ast.Name) else [e for e in getattr(t, 'elts', []) if isinstance(e, ast.Name)]):
+                    if nm.id in elems and isinstance(t, ast.Name) and not is_elem(n.value):
+                        other.add(nm.id)
+                    if nm.id in elems and not isinstance(t, ast.Name) and not is_list(n.value):
+                        other.add(nm.id)
+    if not lists:
+        raise AnalysisError('ClassicalBasisSimState._act_on_fallback_: the list of mapped positions (self.qubit_map[...]) was not found')
+    # comprehension-local element names
+    comp_local = {}
+    for n in ast.walk(fn):
+        if isinstance(n, (ast.ListComp, ast.GeneratorExp, ast.SetComp, ast.DictComp)):
+            loc = set()
+            for g in n.generators:
+                loc |= bind_iter(g.target, g.iter)
+            for s in ast.walk(n):
+                if isinstance(s, ast.Subscript):
+                    comp_local.setdefault(id(s), set()).update(loc)
+    k = 0
+    for n in ast.walk(fn):
+        if isinstance(n, ast.Subscript) and is_basis(n.value):
+            k += 1
+            idx = n.slice
+            ok = is_elem(idx, comp_local.get(id(n), ())) and not (isinstance(idx, ast.Name) and idx.id in other)
+            ctx.ob(rid, f'{cls.qual}._act_on_fallback_:basis[{ast.unparse(idx)}]#{k}', ok,
+                   '' if ok else f'basis[{ast.unparse(idx)}] is indexed by a value that is not one of the positions the operation\'s qubits map to '
+                   f'(positions: {sorted(lists)} / {sorted(elems)}): the gate acts on the wrong wires whenever its qubits are not the first ones of the simulator',
+                   cls.mod.rel, n.lineno, construct=f'{cls.qual}._act_on_fallback_')
